@@ -637,8 +637,16 @@ def gen_twin(rng, N, CK):
             bfeats.add("mutate")
         elif o == "early":
             m = rng.choice([4, 5, 6, 7])
-            body.append(f"if {V()} % {m} == {rng.randrange(m)} {{ fx({K()}); return {retexpr()}; }}")
-            bfeats.add("early")
+            # half of the early exits leave through a macro whose expansion returns (bail!-style):
+            # no `return` token in the function body itself.  Decided from N and the statement
+            # count only.
+            via_macro = (int(N) * 69069 + len(body)) % 2 == 0
+            if via_macro:
+                body.append(f"if {V()} % {m} == {rng.randrange(m)} {{ fx({K()}); bail_with!({retexpr()}); }}")
+                bfeats.add("early_via_macro")
+            else:
+                body.append(f"if {V()} % {m} == {rng.randrange(m)} {{ fx({K()}); return {retexpr()}; }}")
+                bfeats.add("early")
         elif o == "q":
             k = K()
             body.append(f"let q{k} = may_fail({k}, {V()})?;")
@@ -883,7 +891,8 @@ def gen_corpus(k, seed, n):
     out = [f"// GENERATED by /verif/harness/gen/c17.py (corpus {k}, seed {seed}, {n} twins) -- do not edit by hand.",
            "#![allow(non_camel_case_types, clippy::all, unused_imports, dead_code, unused_parens, unused_braces, unused_assignments)]",
            "use super::rt::*;", "use std::future::Future;", "use std::pin::Pin;", "use std::rc::Rc;",
-           "use tracing::Level;", ""]
+           "use tracing::Level;",
+           "macro_rules! bail_with { () => { return }; ($e:expr) => { return $e }; }", ""]
     descs = []
     for N in range(n):
         code, desc = gen_twin(rng, N, k)
